@@ -3,6 +3,7 @@ package core
 import (
 	"errors"
 	"fmt"
+	"sort"
 
 	jschemaLib "github.com/jsightapi/jsight-schema-go-library"
 	jerrors "github.com/jsightapi/jsight-schema-go-library/errors"
@@ -59,10 +60,36 @@ func (core *JApiCore) buildUserTypes() *jerr.JApiError {
 		}
 	})
 
-	err := core.userTypes.Each(func(n string, _ jschemaLib.Schema) error {
+	// Rules first. A schema refuses new rules once anything has loaded it, and
+	// compiling one type loads every type it refers to, so every type gets its
+	// rules before the first one is compiled.
+	dd := core.catalog.GetRawUserTypes()
+	ruleNames := core.sortedRuleNames()
+	err := core.userTypes.Each(func(name string, ut jschemaLib.Schema) error {
+		for _, n := range ruleNames {
+			if err := ut.AddRule(n, core.rules[n]); err != nil {
+				return jschemaToJAPIError(err, dd.GetValue(name))
+			}
+		}
+		return nil
+	})
+	if err != nil {
+		return adoptError(err)
+	}
+
+	err = core.userTypes.Each(func(n string, _ jschemaLib.Schema) error {
 		return core.compileUserTypeWithAllDependencies(n)
 	})
 	return adoptError(err)
+}
+
+func (core *JApiCore) sortedRuleNames() []string {
+	names := make([]string, 0, len(core.rules))
+	for n := range core.rules {
+		names = append(names, n)
+	}
+	sort.Strings(names)
+	return names
 }
 
 func adoptError(err error) (e *jerr.JApiError) {
@@ -90,13 +117,6 @@ func (core *JApiCore) compileUserTypeWithAllDependencies(name string) error {
 	}
 
 	dd := core.catalog.GetRawUserTypes()
-
-	// Add rules before we try to do something with the type.
-	for n, r := range core.rules {
-		if err := currUT.AddRule(n, r); err != nil {
-			return jschemaToJAPIError(err, dd.GetValue(n))
-		}
-	}
 
 	tt, err := fetchUsedUserTypes(currUT, core.userTypes)
 	if err != nil {
